@@ -5,6 +5,7 @@ import (
 	"strconv"
 	"strings"
 	"sync"
+	"time"
 
 	"github.com/pion/webrtc/v4"
 )
@@ -57,6 +58,10 @@ func c05Ops(spec string) (ids []int, children map[int][]int) {
 func c05Run(p *c05Prog, online func(names []string) string, onlineSteps int) string {
 	s := NewSched()
 	s.Families = []string{"ops."}
+	// blocked = the goroutine sits in a wait state for ProbeWait, not "did not park within a timeout":
+	// a runnable goroutine that a loaded machine has not scheduled yet is not blocked
+	s.Probe = true
+	s.ProbeWait = 50 * time.Millisecond
 	webrtc.VerifSetYield(s.Yield)
 	defer webrtc.VerifSetYield(nil)
 	var logMu sync.Mutex
